@@ -156,33 +156,61 @@ def modelRun (cfg : Cfg) (rounds : List Round) : List (List Ev) × State :=
       (p.1 ++ [s'.out], s')) ([s0.out], s0)
   (acc, s)
 
+/-- per-property projections of the event stream: the tie of property `P` is the agreement of model and
+    implementation on `proj P`; RTMA_LOG frames and `msg_count` values are in none of them, so a change to logging
+    alone breaks no tie (C05's gap-free counts are checked by the Spec on the implementation directly). -/
+def projEv (p : String) (e : Ev) : Option String :=
+  let noCount (u : Nat) (f : Frame) : String :=
+    joinSp (["S", toString u, toString f.mtype, toString f.src, toString f.dest, toString f.destHost, toString f.nbytes] ++ showBody f.body)
+  match e with
+  | .send u _ f =>
+    let keep := match f.body, p with
+      | .log _, "all" => true
+      | .log _, _ => false
+      | _, "all" => true
+      | .data _, "C01" | .data _, "C14" | .data _, "C05" | .data _, "C07" => true
+      | .failed .., "C14" => true
+      | .ack, "C19" | .ack, "C05" | .ack, "C06" => true
+      | .closed .., "C07" | .closed .., "C03" => true
+      | .info .., "C06" => true
+      | .timing .., "C18" | .traffic .., "C18" => true
+      | .active .., "C03" => true
+      | _, _ => false
+    if keep then some (if p == "all" then showEv e else noCount u f) else none
+  | .close _ => if p == "C18" then none else some (showEv e)
+  | .wfail _ | .partialW _ => if p == "C07" || p == "C14" || p == "C03" || p == "all" || p == "C05" then some (showEv e) else none
+  | .rd _ => if p == "C18" then none else some (showEv e)
+
+def firstDiff (i : Nat) : List (List String) → List (List String) → Option String
+  | [], [] => none
+  | a :: ra, b :: rb =>
+    if a == b then firstDiff (i + 1) ra rb
+    else
+      let j := (List.zip a b).takeWhile (fun p => p.1 == p.2) |>.length
+      some s!"round {i} event {j} model=[{a.getD j "<none>"}] impl=[{b.getD j "<none>"}]"
+  | a :: _, [] => some s!"round {i} model has events {a.take 2} impl has no such round"
+  | [], b :: _ => some s!"round {i} impl has events {b.take 2} model has no such round"
+
 def finishCase (c : Case) : List String :=
   let rounds := c.rounds.toList
   let (mev, ms) := modelRun c.cfg rounds
   let oev := c.obs.toList.map (·.toList)
-  let mtxt := mev.map (·.map showEv)
-  let otxt := oev.map (·.map showEv)
   let corr :=
     if c.propOnly then []
     else
-      let rec firstDiff (i : Nat) : List (List String) → List (List String) → Option String
-        | [], [] => none
-        | a :: ra, b :: rb =>
-          if a == b then firstDiff (i + 1) ra rb
-          else
-            let j := (List.zip a b).takeWhile (fun p => p.1 == p.2) |>.length
-            some s!"round {i} event {j} model=[{a.getD j "<none>"}] impl=[{b.getD j "<none>"}]"
-        | a :: _, [] => some s!"round {i} model has events {a.take 2} impl has no such round"
-        | [], b :: _ => some s!"round {i} impl has events {b.take 2} model has no such round"
       let crashTxt := match ms.crashed, c.crash with
-        | none, none => none
         | some m, none => some s!"model crashed ({m}) impl did not"
         | none, some i => some s!"impl crashed ({i}) model did not"
-        | some _, some _ => none
-      match firstDiff 0 mtxt otxt, crashTxt with
-      | none, none => [s!"{c.id} CORR ok"]
-      | some d, _ => [s!"{c.id} CORR diff {d}"]
-      | none, some d => [s!"{c.id} CORR diff {d}"]
+        | _, _ => none
+      ("all" :: Pyrtma.Mgr.Spec.props).map (fun p =>
+        -- a crash is C03's business: the other ties are compared on the rounds completed before it
+        let upto := if c.crash.isSome && p != "C03" && p != "all" then oev.length - 1 else max mev.length oev.length
+        let m := (mev.take upto).map (·.filterMap (projEv p))
+        let o := (oev.take upto).map (·.filterMap (projEv p))
+        match firstDiff 0 m o, crashTxt with
+        | none, none => s!"{c.id} CORR {p} ok"
+        | some d, _ => s!"{c.id} CORR {p} diff {d}"
+        | none, some d => if p == "C03" || p == "all" then s!"{c.id} CORR {p} diff {d}" else s!"{c.id} CORR {p} ok")
   let props :=
     if c.corrOnly then []
     else (Pyrtma.Mgr.Spec.checkAll c.cfg rounds oev c.crash).map (fun p => s!"{c.id} PROP {p.1} {p.2}")
